@@ -57,3 +57,31 @@ def Sorted (cmp : κ → κ → Ordering) (kvs : List (κ × ν)) : Prop :=
   kvs.Pairwise (fun a b => cmp a.1 b.1 = .lt)
 
 end DoltVerif.SortedDict
+
+namespace DoltVerif.SortedDict
+variable {κ ν : Type}
+
+/-- operations on a mutable map, as the property states them -/
+inductive MOp (κ ν : Type) where
+  | put (k : κ) (v : ν)
+  | del (k : κ)
+  | checkpoint
+  | revert
+
+/-- the specification state: the current entries and the entries as of the last checkpoint
+(initially: the entries the mutable map was created from) -/
+structure Dict (κ ν : Type) where
+  cur : List (κ × ν)
+  cp : List (κ × ν)
+
+def Dict.step (cmp : κ → κ → Ordering) (d : Dict κ ν) : MOp κ ν → Dict κ ν
+  | .put k v => { d with cur := insert cmp d.cur k v }
+  | .del k => { d with cur := erase cmp d.cur k }
+  | .checkpoint => { d with cp := d.cur }
+  | .revert => { d with cur := d.cp }
+
+/-- `SortedDict.run`: the entries after a sequence of operations -/
+def run (cmp : κ → κ → Ordering) (base : List (κ × ν)) (ops : List (MOp κ ν)) : List (κ × ν) :=
+  (ops.foldl (Dict.step cmp) ⟨base, base⟩).cur
+
+end DoltVerif.SortedDict
